@@ -174,7 +174,7 @@ fn mk_tx(input: Vec<TxIn>, output: Vec<TxOut>) -> Transaction {
     Transaction { version: kani::any(), lock_time: LockTime::from_consensus(kani::any()), input, output }
 }
 
-//@ harness: size_tx_empty class=F tier=thorough bound="0 inputs, 0 outputs"
+//@ harness: size_tx_empty class=F tier=quick bound="0 inputs, 0 outputs"
 //@ clause: the transaction with no inputs and no outputs: size == serialized length (11), weight == 4*size, vsize == size, discount figures equal the plain ones
 #[kani::proof]
 #[kani::unwind(3)]
@@ -305,7 +305,7 @@ boundary_harness!(size_tx_boundary_ffff, 0xFFFF, 0, 2);
 //@ clause: same, first length with a 5-byte varint
 boundary_harness!(size_tx_boundary_10000, 0x10000, 1, 5);
 
-//@ harness: txoutwitness_lens class=B tier=thorough bound="surjection proof length in {0,2,8}, range proof length in {0,1,0xFD}"
+//@ harness: txoutwitness_lens class=B tier=quick bound="surjection proof length in {0,2,8}, range proof length in {0,1,0xFD}"
 //@ clause: TxOutWitness::rangeproof_len / surjectionproof_len are 0 for an absent proof and otherwise the serialized proof length, so the witness serializes to varint(len)+len for each
 ffi_proof! {
 fn txoutwitness_lens() {
